@@ -4,7 +4,9 @@
 set -u
 cd "$(dirname "$0")/.."
 P=$1; WT=$2; N=$3; PKG=$4; EXP=${5:-detected}
-out=$(scripts/seedconfirm.sh "$WT" "$WT/seed$N.diff" "$WT/seed${N}_demo_test.go" "$PKG" 2>&1)
+# SEEDDIR: where the sub-agent's seedN.* files are (default: the worktree root; must be elsewhere when the demo package is the root package)
+SD=${SEEDDIR:-$WT}
+out=$(scripts/seedconfirm.sh "$WT" "$SD/seed$N.diff" "$SD/seed${N}_demo_test.go" "$PKG" 2>&1)
 echo "$out"
 ok=1
 echo "$out" | grep -q "existing tests with patch: PASS" || ok=0
@@ -13,9 +15,9 @@ echo "$out" | grep -q "demo without patch: PASS (expected)" || ok=0
 [ $ok = 1 ] || { echo "seed $P-$N NOT confirmed"; exit 1; }
 D=seeded/$P-$N
 mkdir -p $D
-cp "$WT/seed$N.diff" $D/patch.diff
-cp "$WT/seed${N}_demo_test.go" $D/demo_test.go
-cp "$WT/seed$N.txt" $D/agent_notes.txt
+cp "$SD/seed$N.diff" $D/patch.diff
+cp "$SD/seed${N}_demo_test.go" $D/demo_test.go
+cp "$SD/seed$N.txt" $D/agent_notes.txt
 python3 - "$P" "$N" "$PKG" "$WT" "$EXP" <<'EOF'
 import json,sys
 p,n,pkg,wt,exp=sys.argv[1:]
